@@ -76,7 +76,9 @@ type CtlSpec struct {
 }
 
 type Case struct {
-	Engine     string     `json:"engine"` // "v1" | "v2"
+	Engine     string     `json:"engine"`           // "v1" | "v2"
+	SvcCut     bool       `json:"svcCut,omitempty"` // service level, DIRECTED: every destination stalls, then a processor failure whose dead letter is refused cancels the run
+	Level      string     `json:"level,omitempty"`  // "" = L-engine (real workers / nodes), "service" = real lifecycle services
 	Collide    bool       `json:"collide"`
 	Sources    []SrcSpec  `json:"sources"`
 	PipeProcs  []ProcSpec `json:"pipeProcs"`
@@ -106,7 +108,7 @@ func CaseFromJSON(m map[string]any) Case {
 	if c.Engine != "v1" && c.Engine != "v2" {
 		panic("engine")
 	}
-	if len(c.Sources) < 1 || len(c.Sources) > 4 || len(c.Dests) < 1 || len(c.Dests) > 4 {
+	if len(c.Sources) < 1 || len(c.Sources) > 5 || len(c.Dests) < 1 || len(c.Dests) > 4 {
 		panic("topology")
 	}
 	for _, s := range c.Sources {
